@@ -68,6 +68,7 @@ func init() {
 		propertySpec{ID: "C01", Harnesses: []harnessSpec{
 			h("cont.H_Hist", hist(0, 2, 3, 1, 2), hist(0, 2, 4, 2, 2), histCov, 30, histDesc),
 			h("cont.H_Hist", hist(2, 2, 3, 0, 1), hist(2, 2, 4, 1, 2), histCov, 0, histDesc),
+			h("cont.H_Hist", hist(1, 2, 2, 0, 2), hist(1, 3, 3, 1, 2), histCov, 0, histDesc),
 		}},
 		propertySpec{ID: "C02", Harnesses: []harnessSpec{
 			h("cont.H_Hist", noAs2(hist(0, 2, 3, 1, 1)), noAs2(hist(0, 2, 4, 2, 2)), histCov, 30, histDesc),
@@ -88,11 +89,13 @@ func init() {
 			h("cont.H_Build", bld(0, 3, 1), bld(0, 3, 2), append([]string{"model_conflict"}, buildCov...), 30, buildDesc),
 			h("cont.H_Build", bld(1, 2, 2), bld(1, 2, 4), append([]string{"model_conflict"}, buildCov...), 0, buildDesc),
 			h("cont.H_Build", bld(2, 2, 1), bld(2, 3, 1), buildCov, 0, buildDesc),
+			h("cont.H_Build", bld(4, 2, 2), bld(4, 3, 2), buildCov, 0, buildDesc),
 		}},
 		propertySpec{ID: "C08", Harnesses: []harnessSpec{
 			h("cont.H_Build", bld(0, 3, 1), bld(0, 3, 2), buildCov, 30, buildDesc),
 			h("cont.H_Build", bld(1, 2, 2), bld(1, 2, 4), buildCov, 0, buildDesc),
 			h("cont.H_Build", bld(2, 2, 2), bld(2, 3, 1), buildCov, 0, buildDesc),
+			h("cont.H_Build", bld(4, 2, 2), bld(4, 3, 2), buildCov, 0, buildDesc),
 		}},
 	)
 	dsp := func(profile, n, nodes, L, closes, faults, errmask int) map[string]int {
@@ -113,6 +116,7 @@ func init() {
 		propertySpec{ID: "C12", Harnesses: []harnessSpec{
 			h("cont.H_Dispose", dsp(1, 2, 3, 1, 2, 0, 1), dsp(1, 3, 3, 1, 2, 0, 1), dspCov, 20, dspDesc),
 			h("cont.H_Dispose", dsp(0, 2, 3, 0, 1, 0, 1), dsp(0, 2, 4, 1, 2, 0, 1), dspCov, 0, dspDesc),
+			h("cont.H_ValueDisposables", map[string]int{"order_schemes": 1}, map[string]int{"order_schemes": 2}, []string{"scope_closed"}, 10, "disposables that are values: 1..3 instances equal as interface values and 0..2 instances of an unhashable type owned by one scope (plus one by the root scope), optionally all failing: every one closed exactly once, one error per failure, no panic, repeated Close inert"),
 		}},
 	)
 	conc := func(ops int) map[string]int { return map[string]int{"ops": ops, "order_schemes": 1} }
@@ -178,7 +182,7 @@ func init() {
 	)
 	for i := range properties {
 		switch properties[i].ID {
-		case "C02", "C10", "C12":
+		case "C02", "C10", "C12", "C03", "C18":
 			properties[i].Harnesses = append(properties[i].Harnesses, hc)
 			if properties[i].ID == "C10" {
 				properties[i].Harnesses = append(properties[i].Harnesses, hcb)
@@ -190,7 +194,8 @@ func init() {
 		case "C05":
 			properties[i].Harnesses = append(properties[i].Harnesses,
 				h("cont.H_Build", bld(0, 3, 1), bld(0, 3, 2), append([]string{"model_cycle"}, buildCov...), 30, buildDesc),
-				h("cont.H_Build", bld(1, 2, 2), bld(1, 2, 4), append([]string{"model_cycle"}, buildCov...), 0, buildDesc))
+				h("cont.H_Build", bld(1, 2, 2), bld(1, 2, 4), append([]string{"model_cycle"}, buildCov...), 0, buildDesc),
+				h("cont.H_Build", bld(4, 2, 2), bld(4, 3, 2), buildCov, 0, buildDesc))
 		case "C06":
 			properties[i].Harnesses = append(properties[i].Harnesses,
 				h("cont.H_Order", bld(3, 3, 2), bld(0, 3, 2), []string{"both_built", "both_failed_or_differ"}, 20, "the same world registered and built twice: registration order permuted (intra-group order kept) and another map-order scheme; verdict classes equal, wiring of both isomorphic to the model, every singleton constructed after the singletons it received"),
